@@ -130,6 +130,35 @@ def _replay(real, engine, rec, c15):
                     break
             if n != (1 if rec["y"] else 0):
                 return {"kind": "created-together", "detail": "of two unifications created before either was advanced, the %s yielded %d times, specified %d" % (which, n, 1 if rec["y"] else 0)}
+        # a unification created while the variables are still unbound and first advanced while the other one
+        # is suspended at its answer (t1 and t2 are equal then: one answer, nothing further bound)
+        ta, tb = real.build(yp, rec["t1"], env), real.build(yp, rec["t2"], env)
+        ga = iter(engine.unify(ta, tb))
+        gb = iter(engine.unify(real.build(yp, rec["t2"], env), real.build(yp, rec["t1"], env)))
+        try:
+            try:
+                next(ga)
+                ya = True
+            except StopIteration:
+                ya = False
+            nb = 0
+            at = None
+            for _ in gb:
+                nb += 1
+                if nb == 1:
+                    at = real.project_tuple([ta, tb] + vs)
+                if nb > 2:
+                    break
+            if ya != rec["y"] or nb != (1 if rec["y"] else 0):
+                return {"kind": "created-before-started-under", "detail": "a unification created before and advanced while another one of the same terms is at its answer yielded %d times, specified %d" % (nb, 1 if rec["y"] else 0)}
+            if rec["y"] and json.dumps(at, sort_keys=True) != json.dumps(rec["at"], sort_keys=True):
+                return {"kind": "created-before-started-under", "detail": "unifying terms that are already equal bound something", "expected": rec["at"], "observed": at}
+        finally:
+            gb.close()
+            ga.close()
+        b1 = sorted(i for i, v in enumerate(vs) if v._is_bound)
+        if b1 != b0:
+            return {"kind": "not-restored", "detail": "bindings after nested unifications differ from before", "expected": b0, "observed": b1}
         # follow-up: after the unification has been undone (three times), every variable must again be
         # exactly what the stack alone makes it: unify it with a new atom and look at all three
         pv = rec["pv"]
@@ -227,4 +256,11 @@ def unify_family(chk, tier, seed, c15=False):
 
 
 def run(tier, seed):
-    return run_unify("C02", tier, seed).finish(rule="one evaluation per (ordered term pair, stack of earlier unifications); each is run three ways (exhaust, close, drop); non-trivial = unifiable")
+    chk = run_unify("C02", tier, seed)
+    # sizes above the enumerated term pairs (arity beyond 256, long lists, deep terms, big integers): the
+    # machine's `=` on the query route
+    from .. import gen
+    SG = gen.scale_groups()
+    uni = [s for s in gen.scale_scenarios() if s["steps"][-1][0].get("goal", {}).get("n") in ("=", "\\=")]
+    chk.machine_family("scale-unify", SG["arity"] + uni, {"budget_extra": 20000000}, max_steps=30000)
+    return chk.finish(rule="one evaluation per (ordered term pair, stack of earlier unifications); each is run three ways (exhaust, close, drop); non-trivial = unifiable")
